@@ -307,6 +307,29 @@ func setterLayers(j judge, tier string) []Layer {
 								if msg := attrMsg(o, p, m); msg != "" {
 									c.Fail(key(), msg)
 								}
+								// precision-0 receiver: documented as the largest of a.BitLen(), b.BitLen() and the default
+								// precision; the implementation counts decimal digits. Either reading is accepted, nothing below.
+								if !c.Skip() {
+									z0 := buildPre(pre, 0, m)
+									pv0, _ := protect(func() { z0.SetRat(new(big.Rat).Set(q)) })
+									lo, hi := uint32(34), uint32(34)
+									for _, v := range []*big.Int{q.Num(), q.Denom()} {
+										if v.Sign() != 0 && !(q.IsInt() && v == q.Denom()) {
+											if d := uint32(ndigits(new(big.Int).Abs(v))); d > lo {
+												lo = d
+											}
+											if b := uint32(v.BitLen()); b > hi {
+												hi = b
+											}
+										}
+									}
+									if hi < lo {
+										hi = lo
+									}
+									if o0 := Observe(z0); pv0 != nil || o0.Prec < lo || o0.Prec > hi || o0.Mode != m {
+										c.Fail(key()+" into a zero-precision receiver", fmt.Sprintf("panic=%v; precision %d mode %s, documented between %d (digits) and %d (bits), mode %s", pv0, o0.Prec, modeName(o0.Mode), lo, hi, modeName(m)))
+									}
+								}
 							}
 							if j == judgeAcc {
 								want := exp.Acc
